@@ -24,6 +24,13 @@ fn es(x: Error) -> String {
     x.to_string()
 }
 
+pub fn tails_gen_eq(a: &RevocationTailsGenerator, b: &RevocationTailsGenerator) -> bool {
+    a.count() == b.count() && match (rmp_serde::to_vec_named(a), rmp_serde::to_vec_named(b)) {
+        (Ok(x), Ok(y)) => x == y,
+        _ => false,
+    }
+}
+
 pub struct FlowOpts {
     pub fixture: &'static str,
     pub by_default: bool,
@@ -290,7 +297,9 @@ pub fn flow(o: &FlowOpts, rng: &mut Rng, arts: &mut Vec<Art>) -> Result<Value, S
     put!(arts, "RevocationKeyPrivate", tag(""), &key_priv);
     put!(arts, "RevocationRegistry", tag(if o.by_default { "initial_full" } else { "initial_empty_accumulator" }), &reg);
     put!(arts, "Accumulator", tag(if o.by_default { "initial_full" } else { "identity" }), &reg.accum);
-    let tg_eq = |a: &RevocationTailsGenerator, b: &RevocationTailsGenerator| jv(a) == jv(b) && a.count() == b.count();
+    // RevocationTailsGenerator has no PartialEq: compare the binary documents (affine bytes of the
+    // points; the text form exposes the projective representation, which a binary round trip normalises)
+    let tg_eq = |a: &RevocationTailsGenerator, b: &RevocationTailsGenerator| tails_gen_eq(a, b);
     arts.push(probe("RevocationTailsGenerator", &tag("fresh"), &tg, &tg_eq));
     let mut tails: Vec<Tail> = vec![];
     let mut k = 0u32;
